@@ -37,12 +37,16 @@ int vf_clock_gettime(clockid_t id, struct timespec *ts) { (void) id; clk_nsec++;
 
 /* ---- world ---- */
 static char g_dir[300];
-#define NVER 7
+#define NVER 8
 /* files named by each setfile version (bit0=f1, bit1=f2, bit2=f3) and its literal text */
-static const unsigned VMASK[NVER] = { 1, 3, 6, 4, 3, 1, 1 };   /* version 5 lists f1 and f2, but f2 has been removed from disk before the setfile is written;
+static const unsigned VMASK[NVER] = { 1, 3, 6, 4, 3, 1, 1, 4 };   /* version 5 lists f1 and f2, but f2 has been removed from disk before the setfile is written;
                                                                 * version 6 names f1 twice (once relative, once absolute).  How often a file named twice contributes is not judged:
                                                                 * once such a version is in the history, repeated entries of one file are accepted wherever one is expected */
 #define VDUP 6
+/* version 7 lists f3 and the file "junk" - and "junk", which version 3 lists as a file that is not a table, is replaced by a real table
+ * (key m4) just before version 7 is written; it stays a table from then on.  Bit 3 of a mask = content of that fourth table. */
+#define VJUNKTABLE 7
+static bool g_junk_is_table;
 static void setfile_text(int v, char *out, size_t n) {
 	switch (v) {
 	case 0: snprintf(out, n, "f1.mtbl\n"); break;
@@ -51,6 +55,7 @@ static void setfile_text(int v, char *out, size_t n) {
 	case 3: snprintf(out, n, "f3.mtbl\nnope.mtbl\njunk\n"); break;
 	case 4: snprintf(out, n, "%s/f1.mtbl\nf2.mtbl\n", g_dir); break;
 	case 6: snprintf(out, n, "f1.mtbl\n%s/f1.mtbl\n", g_dir); break;
+	case 7: snprintf(out, n, "f3.mtbl\njunk\n"); break;
 	default: snprintf(out, n, "f1.mtbl\nf2.mtbl\n"); break;
 	}
 }
@@ -72,6 +77,14 @@ static void world_init(void) {
 	}
 	snprintf(p, sizeof p, "%s/junk", g_dir); FILE *f = fopen(p, "w"); fputs("this is not a table\n", f); fclose(f);
 }
+static void world_junk(bool table) {
+	char p[400]; snprintf(p, sizeof p, "%s/junk", g_dir);
+	if (table == g_junk_is_table) return;
+	unlink(p);
+	if (table) { struct mtbl_writer *w = mtbl_writer_init(p, NULL); mtbl_writer_add(w, (const uint8_t *) "m4", 2, (const uint8_t *) "F4", 2); mtbl_writer_add(w, (const uint8_t *) "s", 1, (const uint8_t *) "F4", 2); mtbl_writer_destroy(&w); }
+	else { FILE *f = fopen(p, "w"); fputs("this is not a table\n", f); fclose(f); }
+	g_junk_is_table = table;
+}
 static void make_table(int i) {
 	char p[400]; snprintf(p, sizeof p, "%s/f%d.mtbl", g_dir, i);
 	struct mtbl_writer *w = mtbl_writer_init(p, NULL); if (!w) return;      /* exists already */
@@ -88,6 +101,7 @@ static void world_set(int v) {
 	setfile_text(v, txt, sizeof txt);
 	/* version 5: the listed file f2 is gone from disk; every other version finds all three table files present */
 	{ char f2[400]; snprintf(f2, sizeof f2, "%s/f2.mtbl", g_dir); if (v == 5) unlink(f2); else make_table(2); }
+	if (v == VJUNKTABLE) world_junk(true);
 	FILE *f = fopen(t, "w"); fputs(txt, f); fclose(f);
 	g_setserial++;
 	struct timespec ts[2] = { { 1000000 + g_setserial * 10, 0 }, { 1000000 + g_setserial * 10, 0 } };
@@ -112,14 +126,14 @@ typedef struct {
 	struct mtbl_fileset *fs[2]; bool alive[2];
 	struct mtbl_iter *it[2]; unsigned it_mask[2]; int it_pos[2]; bool it_failed[2]; uint8_t it_lastk[2][4]; size_t it_lastn[2]; bool it_havelast[2];
 	/* world */
-	int hist[MAXH]; int nhist;              /* setfile versions in order; hist[nhist-1] is current */
+	int hist[MAXH]; unsigned hmask[MAXH]; int nhist;  /* setfile versions in order and the tables each named when it was written; hist[nhist-1] is current */
 	/* reference */
 	bool cold; int j_lo; int j_U; int64_t U_sec; bool pinned; uint64_t pin_cands;
 } fsys;
 static fsys S;
 static int n_open(void) { return (S.it[0] != NULL) + (S.it[1] != NULL); }
 
-enum { OP_SET0 = 0, OP_TICK1 = 10, OP_TICK3, OP_TICK1Z, OP_TICK3Z, OP_RELOAD = 20, OP_RELOAD_NOW = 30, OP_OPEN = 40, OP_STEP = 50, OP_CLOSE = 60, OP_OBSERVE = 70, OP_DESTROY_A = 80 };
+enum { OP_SET0 = 0, OP_TICK1 = 10, OP_TICK3, OP_TICK1Z, OP_TICK3Z, OP_RELOAD = 20, OP_RELOAD_NOW = 30, OP_OPEN = 40, OP_STEP = 50, OP_CLOSE = 60, OP_OBSERVE = 70, OP_DESTROY_A = 80, OP_DESTROY_B = 81, OP_SEEK = 90 };
 
 static struct mtbl_fileset_options *mkopt(uint32_t iv, int filt) {
 	struct mtbl_fileset_options *o = mtbl_fileset_options_init();
@@ -146,13 +160,13 @@ static int drain_mask(struct mtbl_iter *it, int *count) {
 		if (kl > 2 || (last[0] && vh_bscmp((uint8_t *) last, strlen(last), k, kl) > 0)) bad = true;
 		if (!len && !CFG.merge && last[0] && strlen(last) == kl && !memcmp(last, k, kl) && kl != 1) bad = true;
 		memcpy(last, k, kl); last[kl] = 0;
-		if (kl == 2 && k[0] == 'm' && k[1] >= '1' && k[1] <= '3') {
+		if (kl == 2 && k[0] == 'm' && k[1] >= '1' && k[1] <= '4') {
 			unsigned b = 1u << (k[1] - '1'); if ((mk & b) && !len) bad = true; mk |= b;
 			bool plain = vl == 2 && v[0] == 'F' && v[1] == k[1];
 			bool twice = len && CFG.merge && vl == 7 && v[0] == '(' && v[1] == 'F' && v[2] == k[1] && v[3] == '+' && v[4] == 'F' && v[5] == k[1] && v[6] == ')';
 			if (!plain && !twice) bad = true;
 		}
-		else if (kl == 1 && k[0] == 's') { for (size_t i = 0; i + 1 < vl; i++) if (v[i] == 'F' && v[i + 1] >= '1' && v[i + 1] <= '3') { unsigned b = 1u << (v[i + 1] - '1'); if ((sm & b) && !len) bad = true; sm |= b; } if (!CFG.merge && vl != 2) bad = true; }
+		else if (kl == 1 && k[0] == 's') { for (size_t i = 0; i + 1 < vl; i++) if (v[i] == 'F' && v[i + 1] >= '1' && v[i + 1] <= '4') { unsigned b = 1u << (v[i + 1] - '1'); if ((sm & b) && !len) bad = true; sm |= b; } if (!CFG.merge && vl != 2) bad = true; }
 		else bad = true;
 		if (n > 14) { bad = true; break; }
 	}
@@ -164,7 +178,7 @@ static int drain_mask(struct mtbl_iter *it, int *count) {
 static int seq_len(unsigned mask) { int n = __builtin_popcount(mask); return n ? n + (CFG.merge ? 1 : n) : 0; }
 static bool seq_check(unsigned mask, int pos, const uint8_t *k, size_t kl) {
 	int nm = __builtin_popcount(mask);
-	if (pos < nm) { int idx = 0; for (int b = 0; b < 3; b++) if (mask >> b & 1) { if (idx == pos) return kl == 2 && k[0] == 'm' && k[1] == '1' + b; idx++; } return false; }
+	if (pos < nm) { int idx = 0; for (int b = 0; b < 4; b++) if (mask >> b & 1) { if (idx == pos) return kl == 2 && k[0] == 'm' && k[1] == '1' + b; idx++; } return false; }
 	return kl == 1 && k[0] == 's';
 }
 
@@ -173,11 +187,11 @@ static char why[300];
 static bool observe_mask(int h, int obs) {
 	if (obs < 0) { snprintf(why, sizeof why, "handle %c: content is not the merge of any set of files", 'A' + h); return false; }
 	uint64_t J = 0;
-	for (int j = S.j_lo; j <= S.j_U; j++) if (filt_mask(h, VMASK[S.hist[j]]) == (unsigned) obs) J |= 1ull << j;
+	for (int j = S.j_lo; j <= S.j_U; j++) if (filt_mask(h, S.hmask[j]) == (unsigned) obs) J |= 1ull << j;
 	if (S.pinned) J &= S.pin_cands;
 	if (!J) {
 		snprintf(why, sizeof why, "handle %c sees files mask %d; the setfile versions it may legitimately reflect are #%d..#%d of the history (masks", 'A' + h, obs, S.j_lo, S.j_U);
-		size_t o = strlen(why); for (int j = S.j_lo; j <= S.j_U && o < sizeof why - 8; j++) o += snprintf(why + o, sizeof why - o, " %u", filt_mask(h, VMASK[S.hist[j]]));
+		size_t o = strlen(why); for (int j = S.j_lo; j <= S.j_U && o < sizeof why - 8; j++) o += snprintf(why + o, sizeof why - o, " %u", filt_mask(h, S.hmask[j]));
 		snprintf(why + o, sizeof why - o, ")%s", S.pinned ? " and an open iterator pins the view" : "");
 		return false;
 	}
@@ -205,7 +219,8 @@ static bool fs_step(void *ctx, int op);
 static int fs_open_sys(void *ctx) {
 	(void) ctx; memset(&S, 0, sizeof S);
 	clk_sec = 1000; clk_nsec = 0; g_setserial = 0; g_deferred_now = false;
-	world_set(0); S.hist[0] = 0; S.nhist = 1;
+	world_junk(false);
+	world_set(0); S.hist[0] = 0; S.hmask[0] = VMASK[0]; S.nhist = 1;
 	char p[400]; snprintf(p, sizeof p, "%s/set", g_dir);
 	struct mtbl_fileset_options *oa = mkopt(CFG.ivA, 0), *ob = mkopt(CFG.ivB, CFG.filtB);
 	S.fs[0] = mtbl_fileset_init(p, oa); S.fs[1] = mtbl_fileset_dup(S.fs[0], ob);
@@ -235,13 +250,14 @@ static void after_close_point(int h) {
 static bool fs_step(void *ctx, int op) {
 	(void) ctx;
 	int kind = op / 10 * 10, h = op % 10;
-	if (op < 10) { world_set(op); if (S.nhist < MAXH) S.hist[S.nhist++] = op; return true; }
+	if (op < 10) { world_set(op); if (S.nhist < MAXH) { S.hist[S.nhist] = op; S.hmask[S.nhist] = VMASK[op] | ((op == 3 || op == VJUNKTABLE) && g_junk_is_table ? 8u : 0u); S.nhist++; } return true; }
 	if (op == OP_TICK1) { clk_sec += 1; return true; }
 	if (op == OP_TICK3) { clk_sec += 3; return true; }
 	/* same steps, but the nanosecond part of the clock restarts below that of every earlier reading (sub-second borrow in elapsed-time arithmetic) */
 	if (op == OP_TICK1Z) { clk_sec += 1; clk_nsec = 0; return true; }
 	if (op == OP_TICK3Z) { clk_sec += 3; clk_nsec = 0; return true; }
 	if (op == OP_DESTROY_A) { mtbl_fileset_destroy(&S.fs[0]); S.alive[0] = false; return true; }
+	if (op == OP_DESTROY_B) { mtbl_fileset_destroy(&S.fs[1]); S.alive[1] = false; return true; }
 	struct mtbl_fileset *f = S.fs[h];
 	switch (kind) {
 	case OP_RELOAD: pre_reload_point(h, false, false); mtbl_fileset_reload(f); return true;
@@ -260,7 +276,7 @@ static bool fs_step(void *ctx, int op) {
 		mtbl_iter_destroy(&probe);
 		if (!was_pinned && n_open() == 0) { /* this open starts a pinned period */ }
 		if (!observe_mask(h, obs)) { mtbl_iter_destroy(&it); snprintf(bfs_fail, sizeof bfs_fail, "%s", why); return false; }
-		if (!S.pinned) { S.pinned = true; S.pin_cands = 0; for (int j = S.j_lo; j <= S.j_U; j++) if (filt_mask(h, VMASK[S.hist[j]]) == (unsigned) obs) S.pin_cands |= 1ull << j; }
+		if (!S.pinned) { S.pinned = true; S.pin_cands = 0; for (int j = S.j_lo; j <= S.j_U; j++) if (filt_mask(h, S.hmask[j]) == (unsigned) obs) S.pin_cands |= 1ull << j; }
 		/* lookups through the other source entry points must agree with the same view */
 		{
 			struct mtbl_iter *g = mtbl_source_get(src, (const uint8_t *) "s", 1); const uint8_t *k, *v; size_t kl, vl;
@@ -289,6 +305,12 @@ static bool fs_step(void *ctx, int op) {
 		if (S.it_pos[h] >= len || S.it_failed[h]) { S.it_failed[h] = true; if (r == mtbl_res_success) { snprintf(bfs_fail, sizeof bfs_fail, "iterator of handle %c returned key %s after the end of its snapshot", 'A' + h, vh_hex(k, kl)); return false; } return true; }
 		if (r != mtbl_res_success) { snprintf(bfs_fail, sizeof bfs_fail, "iterator of handle %c failed at position %d of its %d-entry snapshot", 'A' + h, S.it_pos[h], len); return false; }
 		snprintf(bfs_fail, sizeof bfs_fail, "iterator of handle %c returned key %s at position %d: not its snapshot (files mask %u)", 'A' + h, vh_hex(k, kl), S.it_pos[h], S.it_mask[h]); return false; }
+	case OP_SEEK: {
+		/* reposition a kept iterator at the first key >= "m2" of ITS snapshot (m-keys sort before "s") */
+		mtbl_res r = mtbl_iter_seek(S.it[h], (const uint8_t *) "m2", 2);
+		if (r != mtbl_res_success) { snprintf(bfs_fail, sizeof bfs_fail, "seek(m2) on the iterator of handle %c fails", 'A' + h); return false; }
+		S.it_pos[h] = (int) (S.it_mask[h] & 1u); S.it_failed[h] = false; S.it_havelast[h] = false;
+		return true; }
 	case OP_CLOSE: mtbl_iter_destroy(&S.it[h]); after_close_point(h); return true;
 	}
 	return true;
@@ -300,9 +322,10 @@ static int fs_alphabet(void *ctx, int *ops, int max) {
 	ops[n++] = OP_TICK1; ops[n++] = OP_TICK3; ops[n++] = OP_TICK1Z; ops[n++] = OP_TICK3Z;
 	for (int h = 0; h < 2; h++) if (S.alive[h]) {
 		ops[n++] = OP_RELOAD + h; ops[n++] = OP_RELOAD_NOW + h; ops[n++] = OP_OBSERVE + h;
-		if (!S.it[h]) ops[n++] = OP_OPEN + h; else { if (!S.it_failed[h]) ops[n++] = OP_STEP + h; ops[n++] = OP_CLOSE + h; }
+		if (!S.it[h]) ops[n++] = OP_OPEN + h; else { if (!S.it_failed[h]) ops[n++] = OP_STEP + h; if (S.it_pos[h] > 0 || S.it_failed[h]) ops[n++] = OP_SEEK + h; ops[n++] = OP_CLOSE + h; }
 	}
 	if (S.alive[0] && !S.it[0]) ops[n++] = OP_DESTROY_A;
+	if (S.alive[1] && !S.it[1] && S.alive[0]) ops[n++] = OP_DESTROY_B;
 	return n;
 }
 static uint64_t fs_canon(void *ctx) {
@@ -311,7 +334,8 @@ static uint64_t fs_canon(void *ctx) {
 	/* world + reference */
 	h = vh_mix(h, S.hist[S.nhist - 1]);
 	/* the part of the history that the reference can still refer to: versions j_lo.. */
-	for (int j = S.j_lo < 0 ? 0 : S.j_lo; j < S.nhist; j++) h = vh_mix(h, S.hist[j] + 1);
+	for (int j = S.j_lo < 0 ? 0 : S.j_lo; j < S.nhist; j++) h = vh_mix(h, S.hist[j] + 1 + 16 * S.hmask[j]);
+	h = vh_mix(h, g_junk_is_table);
 	h = vh_mix(h, (uint64_t) (S.j_U - (S.j_lo < 0 ? 0 : S.j_lo) + 1) * 4 + S.cold * 2 + S.pinned);
 	if (S.pinned) h = vh_mix(h, S.pin_cands >> (S.j_lo < 0 ? 0 : S.j_lo));
 	int64_t age = clk_sec - S.U_sec; if (age > 4) age = 4; h = vh_mix(h, age + 100 * g_deferred_now);
@@ -342,9 +366,10 @@ static const char *fs_explain(void *ctx, const int *ops, int nops) {
 	o += snprintf(b + o, sizeof b - o, "intervals A=%u B=%u filterB=%d merge=%d %s; ops:", CFG.ivA, CFG.ivB, CFG.filtB, CFG.merge, CFG.warm ? "warm" : "cold");
 	for (int i = 0; i < nops && o < 1100; i++) {
 		int op = ops[i], h = op % 10;
-		if (op < 10) { static const char *vn[] = { "{f1}", "{f1,f2}", "{f2,f3}", "{f3,missing,junk}", "{/abs/f1,f2}", "{f1,f2 but f2 deleted from disk}", "{f1,/abs/f1: the same file named twice}" }; o += snprintf(b + o, sizeof b - o, " set%s", vn[op]); }
+		if (op < 10) { static const char *vn[] = { "{f1}", "{f1,f2}", "{f2,f3}", "{f3,missing,junk}", "{/abs/f1,f2}", "{f1,f2 but f2 deleted from disk}", "{f1,/abs/f1: the same file named twice}", "{f3,junk} after junk has been replaced by a table" }; o += snprintf(b + o, sizeof b - o, " set%s", vn[op]); }
 		else if (op == OP_TICK1) o += snprintf(b + o, sizeof b - o, " tick(1s)"); else if (op == OP_TICK3) o += snprintf(b + o, sizeof b - o, " tick(3s)"); else if (op == OP_TICK1Z) o += snprintf(b + o, sizeof b - o, " tick(1s,nsec:=0)"); else if (op == OP_TICK3Z) o += snprintf(b + o, sizeof b - o, " tick(3s,nsec:=0)");
-		else if (op == OP_DESTROY_A) o += snprintf(b + o, sizeof b - o, " destroy(A)");
+		else if (op == OP_DESTROY_A) o += snprintf(b + o, sizeof b - o, " destroy(A)"); else if (op == OP_DESTROY_B) o += snprintf(b + o, sizeof b - o, " destroy(B)");
+		else if (op / 10 * 10 == OP_SEEK) o += snprintf(b + o, sizeof b - o, " seek(%c,m2)", 'A' + h);
 		else { static const char *kn[] = { "", "", "reload", "reload_now", "open", "step", "close", "observe" }; o += snprintf(b + o, sizeof b - o, " %s(%c)", kn[op / 10], 'A' + h); }
 	}
 	return b;
